@@ -372,11 +372,14 @@ def is_root(prog, f):
     return True
 
 
-def run(prog, rep, val_ok=True):
-    rule = rep.rule('R-MBT', 'no argument-rejecting throw is reachable after a file-mutating event of the same API call (typestate over the call graph)', floor=40)
+def run(prog, rep, val_ok=True, only=None, floor=40):
+    """only: regular expression on the root's qualified name (a per-property slice of the same analysis)"""
+    rule = rep.rule('R-MBT', 'no argument-rejecting throw is reachable after a file-mutating event of the same API call (typestate over the call graph)', floor=floor)
     m = MBT(prog)
     roots = [f for f in sorted(prog.funcs.values(), key=lambda f: (f.file, f.line)) if is_root(prog, f) and m.mutates(f)]
-    if len(roots) < 60:
+    if only is not None:
+        roots = [r for r in roots if re.search(only, r.q)]
+    if len(roots) < (60 if only is None else 4):
         raise AnalysisBroken('R-MBT: only %d public mutating roots found' % len(roots))
     for r in roots:
         m.run_root(r)
